@@ -3,6 +3,7 @@
 #include "common.h"
 #include <cocls/queue.h>
 #include <cocls/async.h>
+#include <cocls/future.h>
 #include <deque>
 #include <memory>
 #include <thread>
@@ -97,24 +98,53 @@ template <typename T> cocls::async<void> coro_producer(cocls::limited_queue<T> &
 template <typename T> cocls::async<void> coro_consumer(cocls::limited_queue<T> &q, int me) {
     for (;;) { T v = std::move(co_await q.pop()); long x = V<T>::get(v); if (x == SENTINEL) co_return; log_pop(me, x); }
 }
+
+// event-driven parties: completions run inline in whoever resolves the promise and re-enter the queue from the handler
+template <typename T> struct CbConsumer {
+    cocls::limited_queue<T> &q; int me; cocls::promise<void> done;
+    cocls::suspend_point<void> on_item(cocls::future<T> &f) noexcept {
+        long x = V<T>::get(f.value());
+        (void)q.size();
+        if (x == SENTINEL) return done();
+        log_pop(me, x); arm(); return {};
+    }
+    cocls::call_fn_future_awaiter<&CbConsumer::on_item> awt{*this};
+    void arm() { awt << [this] { return q.pop(); }; }
+    CbConsumer(cocls::limited_queue<T> &q, int me) : q(q), me(me) {}
+};
+template <typename T> struct CbProducer {
+    cocls::limited_queue<T> &q; int me, n, j = 0; cocls::promise<void> done;
+    cocls::suspend_point<void> on_pushed(cocls::future<void> &f) noexcept {
+        int slot = me * 10 + j;
+        try { f.value(); dsim::cell_set(OUTCOME + slot, 1); } catch (const vs::TestError &e) { dsim::cell_set(OUTCOME + slot, 2); dsim::cell_set(FAILCODE + slot, e.code); }
+        (void)q.empty();
+        if (++j < n) { arm(); return {}; }
+        return done();
+    }
+    cocls::call_fn_future_awaiter<&CbProducer::on_pushed> awt{*this};
+    void arm() { long v = (me + 1) * 100 + j; awt << [this, v] { return q.push(v); }; }
+    CbProducer(cocls::limited_queue<T> &q, int me, int n) : q(q), me(me), n(n) {}
+};
 template <typename T> void multi_thread() {
     unsigned limit = 1 + dsim::choose(4);
     int np = 1 + dsim::choose(3), nc = 1 + dsim::choose(3), nunb = dsim::choose(3);
     int pn[3], pk[3], ck[3];
-    for (int i = 0; i < np; i++) { pn[i] = 1 + dsim::choose(4); pk[i] = dsim::choose(2); }
-    for (int i = 0; i < nc; i++) ck[i] = dsim::choose(2);
+    for (int i = 0; i < np; i++) { pn[i] = 1 + dsim::choose(4); pk[i] = dsim::choose(3); }
+    for (int i = 0; i < nc; i++) ck[i] = dsim::choose(3);
     dsim::plan_note("threads limit=%u producers=%d consumers=%d unblocks=%d", limit, np, nc, nunb);
-    for (int i = 0; i < np; i++) dsim::plan_note(" P%d:%s%d", i, pk[i] ? "blk" : "coro", pn[i]);
-    for (int i = 0; i < nc; i++) dsim::plan_note(" C%d:%s", i, ck[i] ? "blk" : "coro");
+    for (int i = 0; i < np; i++) dsim::plan_note(" P%d:%s%d", i, pk[i] == 2 ? "cb" : pk[i] ? "blk" : "coro", pn[i]);
+    for (int i = 0; i < nc; i++) dsim::plan_note(" C%d:%s", i, ck[i] == 2 ? "cb" : ck[i] ? "blk" : "coro");
     {
         cocls::limited_queue<T> q(limit);
         std::vector<std::thread> prod, cons;
         for (int i = 0; i < nc; i++) cons.emplace_back([&, i] {
             if (ck[i] == 0) coro_consumer<T>(q, i).join();
+            else if (ck[i] == 2) { CbConsumer<T> c(q, i); cocls::future<void> fin; c.done = fin.get_promise(); c.arm(); fin.wait(); }
             else for (;;) { auto f = q.pop(); long x = V<T>::get(f.wait()); if (x == SENTINEL) break; log_pop(i, x); }
         });
         for (int i = 0; i < np; i++) prod.emplace_back([&, i] {
             if (pk[i] == 0) coro_producer<T>(q, i, pn[i]).join();
+            else if (pk[i] == 2) { CbProducer<T> p(q, i, pn[i]); cocls::future<void> fin; p.done = fin.get_promise(); p.arm(); fin.wait(); }
             else for (int j = 0; j < pn[i]; j++) {
                 long v = (i + 1) * 100 + j; int slot = i * 10 + j;
                 auto f = q.push(v);
